@@ -29,7 +29,14 @@ def oom_variants(flavour="asan"):
 
 def build_oom(b):
     vs = b.build_variants(oom_variants())
-    return b.build_engine("oom", ["gen.c", "eng/engutil.c", "eng/oom.c"], vs, "asan"), vs
+    return b.build_engine("oom", ["gen.c", "eng/engutil.c", "eng/oom.c"], vs, "asan", core=("heap.c", "die.c", "fs.c", "sched.c")), vs
+
+
+def build_oom_omp(b):
+    """OpenMP build on the simulated runtime, plain flavour (cooperative tasks switch stacks, which ASan does not follow)"""
+    vs = b.build_variants([Variant("omp", openmp=1, mmc=1, mzdcache=0, flavour="plain", knobs=True),
+                           Variant("ompts", openmp=1, mmc=0, mzdcache=0, flavour="plain", knobs=True)])
+    return b.build_engine("oom_omp", ["gen.c", "eng/engutil.c", "eng/oom.c"], vs, "plain", core=("heap.c", "die.c", "fs.c", "sched.c")), vs
 
 
 def check_C20(tier, seed, replay=None):
@@ -51,6 +58,32 @@ def check_C20(tier, seed, replay=None):
         total = nscen * rounds
         outdir = os.path.join(b.scratch, "out")
         lines, crashes = fanout(exe, seed, total, tier, outdir, 100 if tier == "quick" else 1500)
+        # the same enumeration for the OpenMP build (allocation fails inside a parallel region / section of the simulated runtime)
+        bo = Builder()
+        try:
+            oexe, ovs = build_oom_omp(bo)
+            osym = Symbolizer(oexe)
+            olines, ocr = fanout(oexe, seed, 7 * (4 if tier == "quick" else 40), tier, os.path.join(bo.scratch, "out"), 100 if tier == "quick" else 900, extra=["omp"])
+            crashes += ocr
+            ovl = []
+            for w, l in olines:
+                tag, d = kv(l)
+                if tag == "R":
+                    d["scen"] = "omp:" + d["scen"]
+                    lines.append((w, "R " + " ".join("%s=%s" % kvp for kvp in d.items())))
+                    for a in d.get("sites", "").split(","):
+                        if a:
+                            osym.func(a)
+                elif tag == "V":
+                    ovl.append(d)
+            if ovl:
+                def osig(v, s):
+                    return "oom|omp:%s|%s|%s" % (v.get("scen"), v.get("class"), osym.func(v["site"]) if v.get("site", "0") not in ("0", "0x0") else "-")
+                process_violations(rep, oexe, ovl, osym, os.path.join(bo.scratch, "out"), seed, osig,
+                                   keep_pred=lambda l: l.startswith("#") or l.startswith("lib ") or l.startswith("failnext"), tag="-omp")
+            vs = vs + ovs
+        finally:
+            bo.cleanup()
         for c in crashes:
             rep.harness("oom worker %d exited with %d: %s" % (c["worker"], c["rc"], c["tail"][-3:]))
         tot = dict(n=0, die=0, viol=0, notfired=0, skipped=0)
